@@ -11,20 +11,28 @@ Definition fin_of (closed : bool) : fin := if closed then FinClosed else FinEnd 
 Definition has_garbage (cl : list icls) : Prop := Exists (fun c => c = KGarbage) cl.
 Definition has_refused (cl : list icls) : Prop := Exists (fun c => c = KRefused) cl.
 
-(* The property on one observed connection.  [cl] classifies what was put on
-   the wire (legitimate message with its value / refused frame / garbage), [d]
-   is what was dispatched, [closed] whether the receiver dropped the connection.
-   - the legitimate messages in front of the first refused frame or garbage
-     arrive, in order, as the first deliveries;
+(* The property on one observed connection, as a proposition.  [cl] classifies
+   what was put on the wire (legitimate message with its value / refused frame /
+   garbage), [d] is what was dispatched, [closed] whether the receiver dropped
+   the connection.
+   Without garbage ([clean_prop]):
    - a stream of legitimate messages only: exactly they arrive;
-   - with refused frames (no garbage): all legitimate messages arrive, or a
-     prefix of them and the connection is closed (wire_ok);
-   - behind garbage nothing more is required. *)
+   - with refused frames: the legitimate messages in front of the first refused
+     frame arrive first, and then all legitimate messages arrive, or a prefix of
+     them and the connection is closed (wire_ok).
+   With garbage: [d] splits into a part that satisfies clean_prop for the items
+   in front of the first garbage and a part that is a subsequence of the
+   legitimate messages behind it. *)
+Definition clean_prop (cl : list icls) (d : list nat) (closed : bool) : Prop :=
+  (~ has_refused cl -> d = legit_all cl) /\
+  (has_refused cl -> prefix (legit_pre cl) d /\ wire_ok (legit_all cl) d (fin_of closed)).
+
 Definition stream_prop (cl : list icls) (d : list nat) (closed : bool) : Prop :=
-  (has_garbage cl -> prefix (legit_pre cl) d) /\
-  (~ has_garbage cl -> ~ has_refused cl -> d = legit_all cl) /\
-  (~ has_garbage cl -> has_refused cl ->
-     prefix (legit_pre cl) d /\ wire_ok (legit_all cl) d (fin_of closed)).
+  (~ has_garbage cl -> clean_prop cl d closed) /\
+  (has_garbage cl ->
+     exists d1 d2, d = d1 ++ d2 /\
+       clean_prop (before_garbage cl) d1 (closed && nilb d2) /\
+       subseqb d2 (legit_values (after_garbage cl)) = true).
 
 Lemma nats_eqb_eq a b : nats_eqb a b = true <-> a = b.
 Proof. unfold nats_eqb. apply list_eqb_eq. intros x y. apply Nat.eqb_eq. Qed.
@@ -62,34 +70,70 @@ Proof.
   - intros [H|[Hc H]]; [now left|]. right. destruct closed; [split; [reflexivity|exact H]|discriminate].
 Qed.
 
+Lemma clean_clauses_sound cl d closed :
+  clean_clauses cl d closed = [] <-> clean_prop cl d closed.
+Proof.
+  unfold clean_clauses, clean_prop.
+  pose proof (existsb_refused cl) as HR.
+  pose proof (prefixb_prefix (legit_pre cl) d) as HP.
+  pose proof (nats_eqb_eq d (legit_all cl)) as HE.
+  pose proof (wire_okb_ok (legit_all cl) d closed) as HW.
+  destruct (existsb is_refused cl) eqn:ER; cbn [negb].
+  - assert (has_refused cl) as Rf by now apply HR.
+    destruct (prefixb (legit_pre cl) d) eqn:EP; cbn [negb].
+    + destruct (wire_okb (legit_all cl) d closed) eqn:EW.
+      * split; [|reflexivity]. intros _. split; [intros NR; contradiction|].
+        intros _. split; [now apply HP|now apply HW].
+      * split.
+        -- destruct (subseqb d (legit_all cl)); discriminate.
+        -- intros [_ H]. destruct (H Rf) as [_ H2]. apply HW in H2. discriminate.
+    + split; [discriminate|]. intros [_ H]. destruct (H Rf) as [H1 _]. apply HP in H1. discriminate.
+  - assert (~ has_refused cl) as NR by (intros Rf; apply HR in Rf; discriminate).
+    unfold clause. destruct (nats_eqb d (legit_all cl)) eqn:EE.
+    + split; [|reflexivity]. intros _. split; [intros _; now apply HE|intros Rf; contradiction].
+    + split; [discriminate|]. intros [H _]. specialize (H NR). apply HE in H. discriminate.
+Qed.
+
+Lemma in_splits d : forall d1 d2, In (d1, d2) (splits d) <-> d = d1 ++ d2.
+Proof.
+  induction d as [|x r IH]; intros d1 d2; cbn [splits].
+  - split.
+    + intros [[= <- <-]|[]]. reflexivity.
+    + intros H. symmetry in H. apply app_eq_nil in H as [-> ->]. now left.
+  - split.
+    + intros [[= <- <-]|H]; [reflexivity|].
+      apply in_map_iff in H as [[a b] [[= <- <-] Hin]]. cbn [fst snd]. apply IH in Hin. now rewrite Hin.
+    + destruct d1 as [|y d1]; cbn [app]; intros H.
+      * subst d2. now left.
+      * injection H as <- H. right. apply in_map_iff. exists (d1, d2). split; [reflexivity|now apply IH].
+Qed.
+
 Theorem stream_clauses_sound cl d closed :
   stream_clauses cl d closed = [] <-> stream_prop cl d closed.
 Proof.
   unfold stream_clauses, stream_prop.
-  pose proof (existsb_garbage cl) as HG. pose proof (existsb_refused cl) as HR.
-  pose proof (prefixb_prefix (legit_pre cl) d) as HP.
-  pose proof (nats_eqb_eq d (legit_all cl)) as HE.
-  pose proof (wire_okb_ok (legit_all cl) d closed) as HW.
+  pose proof (existsb_garbage cl) as HG.
   destruct (existsb is_garbage cl) eqn:EG.
   - assert (has_garbage cl) as G by now apply HG.
-    unfold clause. destruct (prefixb (legit_pre cl) d) eqn:EP.
-    + split; [|reflexivity]. intros _. split; [intros _; now apply HP|]. split; intros NG; contradiction.
-    + split; [discriminate|]. intros [H _]. apply HP in H; [discriminate|exact G].
+    assert (existsb (garbage_split_ok cl closed) (splits d) = true <->
+            exists d1 d2, d = d1 ++ d2 /\
+              clean_prop (before_garbage cl) d1 (closed && nilb d2) /\
+              subseqb d2 (legit_values (after_garbage cl)) = true) as HX.
+    { rewrite existsb_exists. split.
+      - intros [[d1 d2] [Hin Hok]]. exists d1, d2. apply in_splits in Hin. split; [exact Hin|].
+        unfold garbage_split_ok in Hok. cbn [fst snd] in Hok.
+        destruct (clean_clauses (before_garbage cl) d1 (closed && nilb d2)) eqn:EC; [|discriminate].
+        split; [now apply clean_clauses_sound|exact Hok].
+      - intros [d1 [d2 [Hd [Hc Hs]]]]. exists (d1, d2). split; [now apply in_splits|].
+        unfold garbage_split_ok. cbn [fst snd]. apply clean_clauses_sound in Hc. now rewrite Hc. }
+    destruct (existsb (garbage_split_ok cl closed) (splits d)) eqn:EX.
+    + split; [|reflexivity]. intros _. split; [intros NG; contradiction|]. intros _. now apply HX.
+    + split.
+      * destruct (negb (prefixb (legit_pre cl) d)); [discriminate|].
+        destruct (subseqb d (legit_values cl)); discriminate.
+      * intros [_ H]. apply HX in H; [discriminate|exact G].
   - assert (~ has_garbage cl) as NG by (intros G; apply HG in G; discriminate).
-    destruct (existsb is_refused cl) eqn:ER; cbn [negb].
-    + assert (has_refused cl) as Rf by now apply HR.
-      destruct (prefixb (legit_pre cl) d) eqn:EP; cbn [negb].
-      * destruct (wire_okb (legit_all cl) d closed) eqn:EW.
-        -- split; [|reflexivity]. intros _. split; [intros G; contradiction|].
-           split; [intros _ NR; contradiction|]. intros _ _. split; [now apply HP|now apply HW].
-        -- split.
-           ++ destruct (subseqb d (legit_all cl)); discriminate.
-           ++ intros [_ [_ H]]. destruct (H NG Rf) as [_ H2]. apply HW in H2. discriminate.
-      * split; [discriminate|]. intros [_ [_ H]]. destruct (H NG Rf) as [H1 _].
-        apply HP in H1. discriminate.
-    + assert (~ has_refused cl) as NR by (intros Rf; apply HR in Rf; discriminate).
-      unfold clause. destruct (nats_eqb d (legit_all cl)) eqn:EE.
-      * split; [|reflexivity]. intros _. split; [intros G; contradiction|].
-        split; [intros _ _; now apply HE|intros _ Rf; contradiction].
-      * split; [discriminate|]. intros [_ [H _]]. specialize (H NG NR). apply HE in H. discriminate.
+    rewrite clean_clauses_sound. split.
+    + intros H. split; [intros _; exact H|intros G; contradiction].
+    + intros [H _]. now apply H.
 Qed.
